@@ -2,6 +2,7 @@
 
 case = {'text': str, 'origin': which generator produced it}
 """
+import re
 import signal
 
 from hypothesis import strategies as st
@@ -257,7 +258,7 @@ def shrink_candidates(case):
         if len(t) > 1:
             for t2 in (t[:-1], t[1:], t[0]):
                 yield dict(text=' '.join(toks[:i] + [t2] + toks[i + 1:]), origin='shrunk')
-        if t.isdigit() and int(t) > 1:
+        if re.fullmatch(r'[0-9]+', t) and int(t) > 1:
             for v in (1, int(t) // 2, int(t) - 1):
                 yield dict(text=' '.join(toks[:i] + [str(v)] + toks[i + 1:]), origin='shrunk')
 
